@@ -497,7 +497,7 @@ func checkCounterPersist(r *Run) {
 					return ok && !isErrorExit(ret)
 				}
 				p := findPath(f, st, isPut, succ, nil)
-				if p != nil && name == "versionID" && loaderRaisesVersionID(w) {
+				if p != nil && name == "versionID" && loaderRaisesVersionID(w) && !versionMapPruned(w) {
 					// the version counter is also re-derived at start-up from the persisted uuid↔version maps
 					// (R12.5); persisting those maps after the increment is then sufficient
 					isCaches := func(x ssa.Instruction) bool { return w.performs(x, []string{"putCaches"}, 1) }
@@ -843,6 +843,28 @@ func loaderRaisesVersionID(w *World) bool {
 				continue
 			}
 			if (isFieldLoad(stripConv(bo.Y), "repoManager", "versionID") && bo.Op == token.GEQ) || (isFieldLoad(stripConv(bo.X), "repoManager", "versionID") && bo.Op == token.LEQ) {
+				return true
+			}
+		}
+	}
+	return false
+}
+
+
+// versionMapPruned: some function deletes entries from the persisted version→uuid map (hidden branches,
+// deleted repos).  The highest version id ever handed out can then be missing from the map, so the map
+// no longer lets the loader recover the counter: the counter record itself has to be written.
+func versionMapPruned(w *World) bool {
+	for _, f := range w.RepoFuncs {
+		if relPkg(pkgPathOf(f)) != "datastore" || len(f.Blocks) == 0 || strings.HasSuffix(w.fposFile(f), "_test.go") {
+			continue
+		}
+		for _, c := range calls(f) {
+			cv, ok := c.(*ssa.Call)
+			if !ok {
+				continue
+			}
+			if bi, ok := cv.Call.Value.(*ssa.Builtin); ok && bi.Name() == "delete" && isFieldLoad(cv.Call.Args[0], "repoManager", "versionToUUID") {
 				return true
 			}
 		}
